@@ -67,21 +67,19 @@ Proof.
       rewrite !app_length in IH. cbn in IH. rewrite <- !app_assoc in IH. cbn in IH.
       rewrite Nat.add_1_r in IH. rewrite IH by (auto; lia).
       destruct (next_tuple qs ps) as [t|]; cbn; [|reflexivity].
-      f_equal. f_equal. rewrite <- app_assoc.
-      replace (length pre_q + 1)%nat with (S (length pre_q)) by lia.
-      change (List.repeat 0%nat (S (length pre_q))) with (0%nat :: List.repeat 0%nat (length pre_q)).
+      f_equal. f_equal.
       clear. induction (length pre_q) as [|n IHn]; cbn; [reflexivity|]. f_equal. exact IHn.
 Qed.
 
 Lemma mi_next_spec : forall qs pos, valid_pos qs pos -> mi_next qs pos = Ok (next_tuple qs pos).
 Proof.
-  intros qs pos Hv. unfold mi_next. rewrite (mi_scan_gen qs pos [] [] eq_refl Hv). cbn.
+  intros qs pos Hv. unfold mi_next. pose proof (mi_scan_gen qs pos [] [] eq_refl Hv) as H. cbn in H. rewrite H.
   destruct (next_tuple qs pos); reflexivity.
 Qed.
 
 Lemma next_tuple_valid : forall qs pos pos', valid_pos qs pos -> next_tuple qs pos = Some pos' -> valid_pos qs pos'.
 Proof.
-  induction qs as [|q qs IH]; intros pos pos' Hv H; inversion Hv as [|p q' ps qs' Hpq Hv']; subst; cbn in H; [discriminate|].
+  induction qs as [|q qs IH]; intros pos pos' Hv H; inversion Hv as [|p q' ps qs' Hpq Hv']; subst; cbn [next_tuple] in H; [discriminate|].
   destruct (p <? q - 1)%nat eqn:E.
   - inversion H; subst. apply Nat.ltb_lt in E. constructor; [lia|exact Hv'].
   - destruct (next_tuple qs ps) as [t|] eqn:En; cbn in H; [|discriminate]. inversion H; subst.
@@ -101,10 +99,10 @@ Lemma inner_last : forall q rest ps n p, next_tuple rest ps = None -> (q - p = S
   enum (q :: rest) (p :: ps) (map (fun x => x :: ps) (seq p (q - p))).
 Proof.
   intros q rest ps n. induction n as [|n IH]; intros p Hn Hd.
-  - rewrite Hd. cbn. apply enum_last. cbn. replace (p <? q - 1)%nat with false by (symmetry; apply Nat.ltb_ge; lia).
+  - rewrite Hd. cbn [seq map]. apply enum_last. cbn [next_tuple]. replace (p <? q - 1)%nat with false by (symmetry; apply Nat.ltb_ge; lia).
     rewrite Hn. reflexivity.
   - rewrite (seq_split_first p (q - p)) by lia. cbn [map]. eapply enum_step.
-    + cbn. replace (p <? q - 1)%nat with true by (symmetry; apply Nat.ltb_lt; lia). reflexivity.
+    + cbn [next_tuple]. replace (p <? q - 1)%nat with true by (symmetry; apply Nat.ltb_lt; lia). reflexivity.
     + replace (q - p - 1)%nat with (q - S p)%nat by lia. apply IH; [exact Hn|lia].
 Qed.
 
@@ -113,10 +111,10 @@ Lemma inner_step : forall q rest ps ps' l n p, next_tuple rest ps = Some ps' -> 
   enum (q :: rest) (p :: ps) (map (fun x => x :: ps) (seq p (q - p)) ++ l).
 Proof.
   intros q rest ps ps' l n. induction n as [|n IH]; intros p Hn Hl Hd.
-  - rewrite Hd. cbn. eapply enum_step; [|exact Hl]. cbn.
+  - rewrite Hd. cbn [seq map app]. eapply enum_step; [|exact Hl]. cbn [next_tuple].
     replace (p <? q - 1)%nat with false by (symmetry; apply Nat.ltb_ge; lia). rewrite Hn. reflexivity.
   - rewrite (seq_split_first p (q - p)) by lia. cbn [map app]. eapply enum_step.
-    + cbn. replace (p <? q - 1)%nat with true by (symmetry; apply Nat.ltb_lt; lia). reflexivity.
+    + cbn [next_tuple]. replace (p <? q - 1)%nat with true by (symmetry; apply Nat.ltb_lt; lia). reflexivity.
     + replace (q - p - 1)%nat with (q - S p)%nat by lia. apply IH; [exact Hn|exact Hl|lia].
 Qed.
 
@@ -124,12 +122,12 @@ Lemma enum_cons : forall q rest ps0 L, (0 < q)%nat -> enum rest ps0 L ->
   enum (q :: rest) (0%nat :: ps0) (flat_map (fun tl => map (fun x => x :: tl) (seq 0 q)) L).
 Proof.
   intros q rest ps0 L Hq H. induction H as [pos Hn|pos pos' l Hn Hl IH].
-  - cbn. rewrite app_nil_r. destruct q as [|q']; [lia|].
-    replace (seq 0 (S q')) with (seq 0 (S q' - 0)) by (f_equal; lia).
-    eapply inner_last; [exact Hn|lia].
-  - cbn [flat_map]. destruct q as [|q']; [lia|].
-    replace (seq 0 (S q')) with (seq 0 (S q' - 0)) at 1 by (f_equal; lia).
-    eapply inner_step; [exact Hn|exact IH|lia].
+  - cbn [flat_map]. rewrite app_nil_r.
+    replace (seq 0 q) with (seq 0 (q - 0)) by (f_equal; lia).
+    apply (inner_last q rest pos (q - 1) 0%nat Hn). lia.
+  - cbn [flat_map].
+    replace (seq 0 q) with (seq 0 (q - 0)) at 1 by (f_equal; lia).
+    apply (inner_step q rest pos pos' _ (q - 1) 0%nat Hn IH). lia.
 Qed.
 
 Lemma enum_tuples : forall qs, Forall (fun q => (0 < q)%nat) qs -> enum qs (List.repeat 0%nat (length qs)) (tuples qs).
@@ -149,8 +147,9 @@ Qed.
 
 Lemma tuples_length : forall qs, length (tuples qs) = product qs.
 Proof.
-  induction qs as [|q qs IH]; cbn; [reflexivity|]. rewrite <- IH. clear IH.
-  induction (tuples qs) as [|t l IHl]; cbn; [lia|].
+  induction qs as [|q qs IH]; [reflexivity|].
+  cbn [tuples product fold_right]. fold (product qs). rewrite <- IH. clear IH.
+  induction (tuples qs) as [|t l IHl]; cbn [flat_map length]; [lia|].
   rewrite app_length, map_length, seq_length, IHl. lia.
 Qed.
 
